@@ -165,6 +165,68 @@ func stageE2(driverPath string, sel map[string]bool) stageResult {
 			s.add("dumpprop "+n, first[0], first[1], "first differing range")
 		}
 		s.Samples = append(s.Samples, n+": "+real[len(real)/2])
+		// history: the value for r must not depend on which code point was looked up just before. The sweep
+		// above is ascending; here every code point at which any class changes (and its neighbours, one member
+		// per signature, the named ones) is looked up right after an "aggressor": the same low 16 bits in
+		// every other plane, single flipped high bits, its neighbours, a code point no table lists, the
+		// extremes - what a memo keyed on a truncated or badly packed code point, or remembering a table row
+		// without the table, confuses with r. Expected value: the one the ascending sweep gave.
+		truth := make(map[rune]int)
+		var sample []rune
+		add := func(r rune) {
+			if r >= 0 && r <= 0x10FFFF {
+				if _, ok := truth[r]; !ok {
+					truth[r] = 0
+					sample = append(sample, r)
+				}
+			}
+		}
+		for _, r := range ci.bounds {
+			add(r)
+		}
+		for _, r := range ci.allReps() {
+			add(r)
+		}
+		for _, r := range sample {
+			truth[r] = f(r)
+		}
+		// re-establish the ascending-sweep values for the sample from the run-length list
+		{
+			i := 0
+			sorted := append([]rune(nil), sample...)
+			sort.Slice(sorted, func(a, b int) bool { return sorted[a] < sorted[b] })
+			for _, r := range sorted {
+				for {
+					var lo2, hi2, v2 int
+					fmt.Sscanf(real[i], "%d %d %d", &lo2, &hi2, &v2)
+					if int(r) <= hi2 {
+						truth[r] = v2
+						break
+					}
+					i++
+				}
+			}
+		}
+		bad := 0
+		badR := map[rune]bool{}
+		for _, r := range sample {
+			aggr := []rune{r ^ 0x100000, r ^ 0x80000, r ^ 0x40000, r ^ 0x20000, r ^ 0x10000, r ^ 0x8000, r + 1, r - 1, 0, 0x378, 0x10FFFF, r & 0xFFFF, r & 0xFFF, r & 0xFF, r | 0x100000}
+			for pl := rune(0); pl <= 0x10; pl++ {
+				aggr = append(aggr, pl<<16|r&0xFFFF)
+			}
+			for _, a := range aggr {
+				if a < 0 || a > 0x10FFFF || a == r {
+					continue
+				}
+				f(a)
+				s.Evaluations++
+				if v := f(r); v != truth[r] && bad < 40 && !badR[r] {
+					bad++
+					badR[r] = true
+					s.add(fmt.Sprintf("lookup %s %d after %d", n, r, a), fmt.Sprint(v), fmt.Sprint(truth[r]), fmt.Sprintf("the lookup of U+%04X depends on the previous lookup (U+%04X)", r, a))
+				}
+			}
+		}
 	}
 	return s
 }
@@ -738,6 +800,39 @@ func (cs *caseSource) eachLong(count, maxLen int, f func(i int, gc genCase)) {
 	}
 }
 
+// eachHuge: a few inputs around 2^16 and 2^17 bytes (thorough: also 2^20): offsets, counters and fields
+// narrower than int wrap there, and only there. For the linear monitors only.
+func (cs *caseSource) eachHuge(thorough bool, f func(i int, gc genCase)) {
+	targets := []int{1<<16 + 37, 1<<17 + 4099}
+	if thorough {
+		targets = append(targets, 1<<20+11)
+	}
+	for i, target := range targets {
+		r := newRng(cs.seed, cs.stream+"/huge", uint64(i))
+		var b []byte
+		k := 0
+		for len(b) < target {
+			rr := newRng(cs.seed, cs.stream+"/hugepart", uint64(i)*100000+uint64(k))
+			k++
+			gc := genAny(rr)
+			if len(gc.input) > 400 {
+				continue
+			}
+			for n := 1 + r.intn(3); n > 0; n-- {
+				b = append(b, gc.input...)
+			}
+		}
+		f(-1000-i, genCase{input: b, kind: "huge", tplIdx: -1})
+	}
+	// one cluster of more than 2^16 bytes (and of more than 2^15 code points) between two others
+	one := []byte("xa")
+	for i := 0; i < 33000; i++ {
+		one = appendRune(one, 0x0301)
+	}
+	one = append(one, 'y')
+	f(-1100, genCase{input: one, kind: "huge", tplIdx: -1})
+}
+
 func recordDist(dd *dist, seen map[string]bool, gc genCase) {
 	dd.Kinds[gc.kind]++
 	dd.Lengths[lenBucket(utf8.RuneCount(gc.input))]++
@@ -835,15 +930,39 @@ func stageE5(d *driver, cs *caseSource, dd *dist, only map[string]bool, thorough
 			flush()
 		}
 	}
+	// two texts in flight: the chain over an input with one call on the previous input between any two of
+	// its calls gives what the chain alone gives (a memo keyed on "how much is left" or the like does not)
+	var prev []byte
+	interleaved := func(b []byte) {
+		if len(prev) > 0 && len(b) > 0 {
+			for _, k := range []string{"fg", "fw", "fs", "fl", "st"} {
+				kk := k
+				if only != nil && !only[kk] && !(kk == "st" && only["sts"]) {
+					continue
+				}
+				for _, str := range []bool{false, true} {
+					s.Evaluations++
+					if a, c := realChainInterleaved(kk, b, prev, str), realChain(kk, b, str); a != c {
+						s.add(fmt.Sprintf("interleaved %s %v %s %s", kk, str, hx(prev), hx(b)), a, c, "the chain over the last input, with one call on the other text between any two calls, differs from the chain alone")
+					}
+				}
+			}
+		}
+		prev = b
+	}
 	cs.each(func(i int, gc genCase) {
 		recordDist(dd, seen, gc)
 		if modelSized(gc.input) {
 			handle(gc.input)
+			if i%2 == 0 || i < 400 {
+				interleaved(gc.input)
+			}
 		}
 	})
 	cs.eachLong(cs.n/800, 600, func(i int, gc genCase) {
 		recordDist(dd, seen, gc)
 		handle(gc.input)
+		interleaved(gc.input)
 	})
 	flush()
 	// small scope, exhaustive: every sequence of up to 3-5 symbols over an alphabet with an ASCII and a
@@ -1172,6 +1291,58 @@ func stageRW(driverPath string, amb int) stageResult {
 			s.add(fmt.Sprintf("dumprw %d %d", amb, p), first[0], first[1], "first differing range")
 		}
 	}
+	// history: runeWidth(r, class of r) right after runeWidth of an "aggressor" (neighbours, the same code point
+	// under another class - another table is consulted -, the same low bits in other planes, flipped high
+	// bits, an unlisted code point) must be what it is right after itself; for every code point at which a
+	// class changes, its neighbours and one member per signature. Also through StringWidth on the pair.
+	var sample []rune
+	seenS := map[rune]bool{}
+	for _, rs := range [][]rune{ci.bounds, ci.allReps()} {
+		for _, r := range rs {
+			if !seenS[r] {
+				seenS[r] = true
+				sample = append(sample, r)
+			}
+		}
+	}
+	bad := 0
+	badR := map[rune]bool{}
+	otherClass := []int{c("prExtendedPictographic"), c("prAny"), c("prExtend")}
+	for _, r := range sample {
+		p := u.VerifPropertyGraphemes(r)
+		u.VerifRuneWidth(r, p)
+		want := u.VerifRuneWidth(r, p)
+		type ag struct {
+			r rune
+			p int
+		}
+		var aggr []ag
+		for _, a := range []rune{r + 1, r - 1, r + 2, r - 2, r ^ 0x100000, r ^ 0x10000, r ^ 0x20000, r & 0xFFFF, r | 0x100000, 0x378, 0, 0x10FFFF} {
+			if a >= 0 && a <= 0x10FFFF && a != r {
+				aggr = append(aggr, ag{a, u.VerifPropertyGraphemes(a)})
+			}
+		}
+		for _, q := range otherClass {
+			if q != p {
+				aggr = append(aggr, ag{r, q})
+				if r+1 <= 0x10FFFF {
+					aggr = append(aggr, ag{r + 1, q})
+				}
+				if r > 0 {
+					aggr = append(aggr, ag{r - 1, q})
+				}
+			}
+		}
+		for _, a := range aggr {
+			u.VerifRuneWidth(a.r, a.p)
+			s.Evaluations++
+			if v := u.VerifRuneWidth(r, p); v != want && bad < 40 && !badR[r] {
+				bad++
+				badR[r] = true
+				s.add(fmt.Sprintf("rw-after %d %d %d %d", r, p, a.r, a.p), fmt.Sprint(v), fmt.Sprint(want), fmt.Sprintf("runeWidth(U+%04X) depends on the previous call (U+%04X, class %d)", r, a.r, a.p))
+			}
+		}
+	}
 	s.Samples = []string{"runeWidth(U+4E16, prAny) = " + fmt.Sprint(u.VerifRuneWidth(0x4E16, 1))}
 	return s
 }
@@ -1293,6 +1464,21 @@ func stageWidthSpec(d *driver, cs *caseSource, thorough bool) stageResult {
 		}
 	}
 	flush()
+	// small scope, exhaustive, over the grapheme alphabet (one symbol shorter than stage E5's in the quick tier)
+	{
+		n, nFull := smallScopeLen('G', thorough)
+		if !thorough {
+			n, nFull = n-1, nFull-1
+		}
+		shortSequences('G', n, nFull, func(b []byte) {
+			ops = append(ops, fmt.Sprintf("specwidth %d %s", cs.amb, hx(b)))
+			inputs = append(inputs, b)
+			if len(ops) >= 10000 {
+				flush()
+			}
+		})
+		flush()
+	}
 	return s
 }
 
